@@ -1,9 +1,10 @@
 // The refreshDebouncer with PENDING WAITERS: conducted schedules on the real refreshDebouncer (the refresh function
 // is held by the harness, so the conductor knows where the flusher is), racing rounds (stop ∥ refreshNow ∥ debounce
 // released from a barrier while a refresh is held), and Session.refreshRing callers pending across Session.Close on a
-// real Session. Every waiter registered before the flusher returned must be released (a result or a closed channel);
-// whether it is stranded for good is decided by events (the flusher goroutine is gone and the pending broadcaster
-// still has listeners), never by a delay.
+// real Session. EVERY waiter must be released (a result or a closed channel) — also one that calls refreshNow() after
+// stop() or after the flusher has returned (it gets a closed channel from the call itself); whether a waiter is stranded
+// for good is decided by events (the flusher goroutine is gone and the pending broadcaster still has listeners), never
+// by a delay.
 package main
 
 import (
@@ -61,11 +62,14 @@ const flusherFrame = ".(*refreshDebouncer).flusher"
 
 var errScripted = errors.New("verif: scripted refresh error")
 
+// refreshes let through because a debounce() raced the flusher's timer drain (see debConductor.mStaleTimer)
+var staleTimerRefreshes int64
+
 // one waiter of a debouncer schedule
 type dwaiter struct {
 	ch    <-chan error
 	state byte // p pending, r result nil, e result error, c closed
-	late  bool // registered after the flusher was seen gone
+	late  bool // registered after the flusher was seen gone (counted; judged like every other waiter)
 }
 
 func (w *dwaiter) poll() byte {
@@ -104,6 +108,12 @@ type debConductor struct {
 	mPend, mCur                                    []int
 	mHasPend                                       bool
 	mExp                                           []byte
+	// a debounce() called while the flusher is inside the refresh function re-arms the timer; if that timer fires
+	// while the flusher, back from the refresh, is between its timer.Stop() and its non-blocking drain of timer.C
+	// (timer-channel semantics of modules with a go directive < 1.23: Stop() does not wait for a send in progress),
+	// the value survives the drain and the flusher runs ONE refresh nobody is waiting for. The model has no such
+	// step; the conductor lets that refresh through (at most one per such debounce) and goes on waiting.
+	mStaleTimer int
 }
 
 func (c *debConductor) flusherGone() bool { return labelledIn(c.label, flusherFrame) == 0 }
@@ -182,6 +192,13 @@ func (c *debConductor) await() string {
 	}
 	cond := func() bool {
 		ref, ws := c.cheap()
+		if ref && !c.mRefreshing && !c.mExited && c.mStaleTimer > 0 && ws == string(c.mExp) {
+			c.mStaleTimer--
+			c.fins++
+			c.release <- nil
+			atomic.AddInt64(&staleTimerRefreshes, 1)
+			return false
+		}
 		if ref == c.mRefreshing && ws == string(c.mExp) {
 			if ref {
 				got = "ref:" + ws
@@ -238,6 +255,11 @@ func (c *debConductor) act(a string) bool {
 		ch := c.d.RefreshNow()
 		id := len(c.ws)
 		c.ws = append(c.ws, &dwaiter{ch: ch, state: 'p', late: late})
+		if c.mStopped {
+			// refreshNow() on a stopped debouncer: a closed channel from the call itself, wherever the flusher is
+			c.mExp = append(c.mExp, 'c')
+			break
+		}
 		c.mExp = append(c.mExp, 'p')
 		if !c.mHasPend {
 			c.mHasPend, c.mToken = true, true
@@ -249,6 +271,9 @@ func (c *debConductor) act(a string) bool {
 		c.d.Debounce()
 		if !c.mStopped {
 			c.mTimer = true
+			if c.mRefreshing {
+				c.mStaleTimer = 1
+			}
 		}
 	case "stop":
 		done := make(chan struct{})
@@ -347,7 +372,7 @@ func runDebLabelled(label string, fixed []string, r *vh.Rng, maxActs int) (strin
 				do("stop")
 			default:
 				if c.mExited {
-					do("now") // a refreshNow after the flusher returned (the excluded class)
+					do("now") // a refreshNow after the flusher returned
 				} else {
 					do("deb")
 				}
@@ -393,15 +418,15 @@ func runDebLabelled(label string, fixed []string, r *vh.Rng, maxActs int) (strin
 	} else {
 		exited = 1 // never stopped (a replayed prefix): nothing to say
 	}
-	stranded, late, lateStranded := 0, 0, 0
-	for i, w := range c.ws {
+	// the debouncer was stopped and its flusher has returned (waited for above): a waiter whose channel is still
+	// pending now will never be released, whenever it was registered
+	stranded, late := 0, 0
+	for _, w := range c.ws {
 		st := w.poll()
 		if w.late {
 			late++
-			if st == 'p' {
-				lateStranded++
-			}
-		} else if st == 'p' && (c.mStopped || c.stall != "") && c.mExp[i] != 'p' {
+		}
+		if st == 'p' && (c.mStopped || c.stall != "") {
 			stranded++
 		}
 	}
@@ -411,15 +436,16 @@ func runDebLabelled(label string, fixed []string, r *vh.Rng, maxActs int) (strin
 	}
 	op := "deb : " + strings.Join(acts, " ")
 	impl := strings.Join(states, ";")
-	obs := fmt.Sprintf("debobs waiters=%d stranded=%d late=%d latestranded=%d stopret=%d exited=%d sched=%s",
-		len(c.ws), stranded, late, lateStranded, stopret, exited, sched)
+	obs := fmt.Sprintf("debobs waiters=%d stranded=%d late=%d stopret=%d exited=%d sched=%s",
+		len(c.ws), stranded, late, stopret, exited, sched)
 	return op, impl, obs
 }
 
 // debRaceRounds: per round a fresh debouncer; optionally a first refresh held inside the refresh function; 0..3 waiters
 // registered BEFORE stop is called (early: they must be released whatever happens); then stop ∥ 0..2 more refreshNow ∥
-// debounce released together from a spin barrier; the held refresh is released before, with or after them. Early
-// waiters never released, stop() calls that hang and flushers that do not return are counted.
+// debounce released together from a spin barrier; the held refresh is released before, with or after them. Waiters
+// never released — early ones and racing ones, on whichever side of stop() / of the flusher's return they registered —,
+// stop() calls that hang and flushers that do not return are counted.
 func debRaceRounds(label string, rounds int, r *vh.Rng) (line string, stats map[string]int) {
 	withLabel(label, func() { line, stats = debRaceLabelled(label, rounds, r) })
 	return
@@ -519,7 +545,7 @@ func debRaceLabelled(label string, rounds int, r *vh.Rng) (string, map[string]in
 		racing += len(rd.racingW)
 		stats[fmt.Sprintf("debwait/hold%d/early%d/race%d", b2i(hold), len(rd.earlyW), nRace)]++
 	}
-	// every flusher must have returned (event: none of this label is left), then every early waiter must be released
+	// every flusher must have returned (event: none of this label is left), then every waiter must be released
 	flusherLeft := 0
 	if !patient(watchdogFull, profiled(func() bool { flusherLeft = labelledIn(label, flusherFrame); return flusherLeft == 0 })) {
 		os.WriteFile(dumpPath("leak", label), []byte("refreshDebouncer.flusher\n"+stacks()), 0o644)
@@ -537,20 +563,21 @@ func debRaceLabelled(label string, rounds int, r *vh.Rng) (string, map[string]in
 		}
 	}
 	stats["debwait/racing-waiters"] = racing
-	stats["debwait/racing-waiters-registered-after-the-flusher-returned(KF-C17-2)"] = racingStranded
-	return fmt.Sprintf("debwait rounds=%d early=%d stranded=%d stophung=%d flusherleft=%d", rounds, early, stranded, stophung, flusherLeft), stats
+	stats["debwait/racing-waiters-never-released"] = racingStranded
+	return fmt.Sprintf("debwait rounds=%d early=%d racing=%d stranded=%d stophung=%d flusherleft=%d", rounds, early, racing,
+		stranded+racingStranded, stophung, flusherLeft), stats
 }
 
 // runSessRef: a real Session (no control connection: its ring refresh fails at once with errNoControl). The refresh
 // function is parked on the ring describer's mutex, Session.refreshRing callers queue up behind it (0..3 of them on a
 // second, pending broadcaster), Session.Close runs, the refresh is let go. Every caller must return and no goroutine
 // of the scenario may be left inside gocql.
-func runSessRef(label string, pendingCallers int, parked bool) (line string, racedLate int) {
-	withLabel(label, func() { line, racedLate = runSessRefLabelled(label, pendingCallers, parked) })
+func runSessRef(label string, pendingCallers int, parked bool) (line string) {
+	withLabel(label, func() { line = runSessRefLabelled(label, pendingCallers, parked) })
 	return
 }
 
-func runSessRefLabelled(label string, pending int, parked bool) (string, int) {
+func runSessRefLabelled(label string, pending int, parked bool) string {
 	cl := memcluster.NewCluster(4, "10.0.0.1")
 	node := cl.Nodes["10.0.0.1"]
 	node.Handle = func(req *memcluster.Request) {
@@ -560,7 +587,7 @@ func runSessRefLabelled(label string, pending int, parked bool) (string, int) {
 	cfg.NumConns = 2
 	s, err := createSession(cfg)
 	if err != nil {
-		return "fatal:" + err.Error(), 0
+		return "fatal:" + err.Error()
 	}
 	d := gocql.VerifSessionRingRefresher(s)
 	me := goid()
@@ -583,7 +610,7 @@ func runSessRefLabelled(label string, pending int, parked bool) (string, int) {
 		})) {
 			gocql.VerifRingDescriberUnlock(s)
 			s.Close()
-			return "fatal:the ring refresh was not started " + stacks(), 0
+			return "fatal:the ring refresh was not started " + stacks()
 		}
 	}
 	for i := 0; i < pending; i++ {
@@ -594,7 +621,7 @@ func runSessRefLabelled(label string, pending int, parked bool) (string, int) {
 		if !patient(watchdogFull, func() bool { _, l, _ := d.State(); return l == pending }) {
 			gocql.VerifRingDescriberUnlock(s)
 			s.Close()
-			return "fatal:refreshRing callers did not register " + stacks(), 0
+			return "fatal:refreshRing callers did not register " + stacks()
 		}
 	}
 	cdone := make(chan struct{})
@@ -610,8 +637,8 @@ func runSessRefLabelled(label string, pending int, parked bool) (string, int) {
 	}
 	// event: every caller has returned and nothing of the scenario is left inside gocql — or the flusher is gone with
 	// listeners still pending on its broadcaster and exactly these callers still inside Session.refreshRing (stranded
-	// for good). Callers that were not parked race Session.Close and may legitimately have registered after the flusher
-	// returned (the excluded class), so only parked scenarios — every caller registered before Close — are judged on that.
+	// for good). Callers that were not parked race Session.Close: whichever side of stop() / of the flusher's return
+	// they register on, they must return too (a refreshNow on a stopped debouncer hands out a closed channel).
 	leaked, fns, raw := 0, "-", ""
 	strandedForGood := false
 	var lastProf time.Time
@@ -634,7 +661,7 @@ func runSessRefLabelled(label string, pending int, parked bool) (string, int) {
 			if k := blockedInChanReceive(".(*Session).refreshRing", me); k > 0 && ret+k == callers && k == leaked {
 				if _, l, _ := d.State(); parked || l == k {
 					// parked: every caller registered before Close. Not parked: the callers raced Session.Close; those
-					// still listening on a broadcaster nobody stopped registered after the flusher had returned
+					// still listening are on a broadcaster nobody will stop (registered after the flusher had returned)
 					fns = "(*Session).refreshRing"
 					strandedForGood = true
 					return true
@@ -643,19 +670,12 @@ func runSessRefLabelled(label string, pending int, parked bool) (string, int) {
 		}
 		return false
 	})
-	if !ok || (strandedForGood && parked) {
+	if !ok || strandedForGood {
 		os.WriteFile(dumpPath("leak", label), []byte(raw), 0o644)
-	}
-	if !ok {
 		atomic.AddInt64(&failures, 1)
 	}
-	racedLate := 0
-	if !parked && strandedForGood {
-		// excluded class (KF-C17-2): a caller that raced Session.Close registered after the flusher had returned
-		racedLate, leaked, fns = leaked, 0, "-"
-	}
 	return fmt.Sprintf("sessref pending=%d parked=%d waiters=%d returned=%d closeret=%d leaked=%d stack=%s open=%d", pending, b2i(parked), callers,
-		int(atomic.LoadInt64(&returned))+racedLate, closeret, leaked, fns, openSockets(node)), racedLate
+		int(atomic.LoadInt64(&returned)), closeret, leaked, fns, openSockets(node))
 }
 
 // statesOf: the scheduler states ("select", "chan receive", "runnable", "sync.Mutex.Lock", …, as printed in the runtime's
